@@ -1,6 +1,7 @@
 package main
 
 import (
+	"fmt"
 	"go/token"
 	"go/types"
 
@@ -277,14 +278,60 @@ func (c *Ctx) ruleThreeWaySelect(rr *RuleRep, rSucc *RuleRep, sites []*reqSite) 
 					continue
 				}
 				ev := c.errResult(ret)
-				if ev == nil || !isNilConst(c.Resolve(ev)) {
+				if ev == nil {
+					continue
+				}
+				// the point the nil result comes from: the return itself, or — with a single exit — the end of the block
+				// through which a nil value (the constant, or an error tested before and nil on this way) enters the join
+				var from []ssa.Instruction
+				viaWaiterEdge := map[ssa.Instruction]bool{} // the join is entered straight from the waiter case's edge
+				switch rv := c.Resolve(ev).(type) {
+				case *ssa.Phi:
+					if rv.Parent() != s.F {
+						continue
+					}
+					for _, lf := range phiLeaves(rv, map[ssa.Value]bool{}) {
+						if lf.Pred == nil || len(lf.Pred.Instrs) == 0 {
+							continue
+						}
+						last := lf.Pred.Instrs[len(lf.Pred.Instrs)-1]
+						lv := c.Resolve(lf.V)
+						isNil := isNilConst(lv)
+						if !isNil {
+							for _, e := range nilEdges(s.F, lv) {
+								if DominatedByEdge(s.F, last, e.B, e.K, PathQ{}) {
+									isNil = true
+								}
+							}
+						}
+						if isNil && reach[last] {
+							from = append(from, last)
+							for _, e := range waiterEdges {
+								if e.B == lf.Pred && e.K < len(lf.Pred.Succs) && lf.Pred.Succs[e.K] == rv.Block() {
+									viaWaiterEdge[last] = true
+								}
+							}
+						}
+					}
+				default:
+					if isNilConst(rv) {
+						from = append(from, ret)
+					}
+				}
+				if len(from) == 0 {
 					continue
 				}
 				n++
-				dom := false
-				for _, e := range waiterEdges {
-					if DominatedByEdge(s.F, ret, e.B, e.K, s.Q) {
-						dom = true
+				dom := true
+				for _, at := range from {
+					d := viaWaiterEdge[at]
+					for _, e := range waiterEdges {
+						if DominatedByEdge(s.F, at, e.B, e.K, s.Q) {
+							d = true
+						}
+					}
+					if !d {
+						dom = false
 					}
 				}
 				if dom {
@@ -382,41 +429,68 @@ func (c *Ctx) ruleRetryableFailures(rr *RuleRep, sites []*reqSite) []handleUse {
 			if ev == nil {
 				continue
 			}
-			rv := c.Resolve(ev)
-			if isNilConst(rv) {
+			rv0 := c.Resolve(ev)
+			if isNilConst(rv0) {
 				continue
 			}
-			key := s.Name + "/failure-return"
-			call, callee := c.asCall(rv)
-			if ex, ok := rv.(*ssa.Extract); ok {
-				call, callee = c.asCall(ex.Tuple)
+			// a single exit (`err = wrapErrorWithRetry(…)` per case, `return err` below): every value the result can hold
+			// is judged; a value that is nil on the way it enters the join (the error of the write, tested before) is the
+			// success return
+			leaves := []phiLeaf{{rv0, nil}}
+			if phi, isPhi := rv0.(*ssa.Phi); isPhi && phi.Parent() == s.F {
+				leaves = phiLeaves(phi, map[ssa.Value]bool{})
 			}
-			wi, isWrap := c.wrapInfoOf(callee)
-			switch {
-			case call != nil && isWrap && wi.handle >= 0 && len(call.Call.Args) > wi.handle:
-				h, mc := c.closureOf(call.Call.Args[wi.handle])
-				if h == nil {
-					if rr != nil {
-						rr.Undecided(key, ret.Pos(), "retry handle operand %s does not resolve to a closure", call.Call.Args[wi.handle].Name())
-					}
+			for li, lf := range leaves {
+				rv := c.Resolve(lf.V)
+				if isNilConst(rv) {
 					continue
 				}
-				uses = append(uses, handleUse{Site: s, Call: call, Ret: ret, Handle: h, MC: mc})
-				if rr != nil {
-					rr.OK(key, ret.Pos(), "failure after registration returns wrapErrorWithRetry(cause, %s)", FuncName(h))
+				if lf.Pred != nil && len(lf.Pred.Instrs) > 0 {
+					nilHere := false
+					for _, e := range nilEdges(s.F, rv) {
+						if DominatedByEdge(s.F, lf.Pred.Instrs[len(lf.Pred.Instrs)-1], e.B, e.K, PathQ{}) {
+							nilHere = true
+						}
+					}
+					if nilHere {
+						continue
+					}
 				}
-			case callee != nil && siteFns[callee]:
-				// tail call into another stage which obeys the rule itself
-				if rr != nil {
-					rr.OK(key, ret.Pos(), "delegates to stage %s (checked separately)", FuncName(callee))
+				key := s.Name + "/failure-return"
+				if li > 0 {
+					key = fmt.Sprintf("%s/failure-return[%d]", s.Name, li)
 				}
-			case callee != nil && callee.Pkg == c.Pkg && c.isWrapFn(callee) && len(call.Call.Args) > 0 && c.isGlobalLoad(call.Call.Args[0], "ErrInvalidSubAck"):
-				if rr != nil {
-					rr.OKt(key, ret.Pos(), "exempt by table: ErrInvalidSubAck — a SUBACK did arrive; the statement's consequent holds")
+				call, callee := c.asCall(rv)
+				if ex, ok := rv.(*ssa.Extract); ok {
+					call, callee = c.asCall(ex.Tuple)
 				}
-			default:
-				if rr != nil {
-					rr.Bad(key, ret.Pos(), "a failure after the request was registered/written returns %s, which carries no retry handle: the retrying client drops the request instead of re-sending it", describeVal(rv))
+				wi, isWrap := c.wrapInfoOf(callee)
+				switch {
+				case call != nil && isWrap && wi.handle >= 0 && len(call.Call.Args) > wi.handle:
+					h, mc := c.closureOf(call.Call.Args[wi.handle])
+					if h == nil {
+						if rr != nil {
+							rr.Undecided(key, ret.Pos(), "retry handle operand %s does not resolve to a closure", call.Call.Args[wi.handle].Name())
+						}
+						continue
+					}
+					uses = append(uses, handleUse{Site: s, Call: call, Ret: ret, Handle: h, MC: mc})
+					if rr != nil {
+						rr.OK(key, ret.Pos(), "failure after registration returns wrapErrorWithRetry(cause, %s)", FuncName(h))
+					}
+				case callee != nil && siteFns[callee]:
+					// tail call into another stage which obeys the rule itself
+					if rr != nil {
+						rr.OK(key, ret.Pos(), "delegates to stage %s (checked separately)", FuncName(callee))
+					}
+				case callee != nil && callee.Pkg == c.Pkg && c.isWrapFn(callee) && len(call.Call.Args) > 0 && c.isGlobalLoad(call.Call.Args[0], "ErrInvalidSubAck"):
+					if rr != nil {
+						rr.OKt(key, ret.Pos(), "exempt by table: ErrInvalidSubAck — a SUBACK did arrive; the statement's consequent holds")
+					}
+				default:
+					if rr != nil {
+						rr.Bad(key, ret.Pos(), "a failure after the request was registered/written returns %s, which carries no retry handle: the retrying client drops the request instead of re-sending it", describeVal(rv))
+					}
 				}
 			}
 		}
